@@ -83,12 +83,22 @@ func checkC17(c *Ctx) {
 					if ac.Shallow && (rep > 0 || procs > 2) {
 						continue
 					}
+					e.extraEnv = []string{"VERIF_SNAP_DIR=" + base}
 					ar := e.runAddr(l, m, base, race, procs)
+					e.extraEnv = nil
 					total++
 					c.Distinct(fmt.Sprintf("%s/%s/%d/%d", ac.ID, m.Name, procs, rep))
 					var why []string
 					if ar.Before != ar.After {
 						why = append(why, "repository_modified")
+					}
+					// ReadOnly is an invariant of every state of the run, not only of the last one: what each git child
+					// saw of the repository when it began is what was there before the run
+					for _, rec := range ar.Log {
+						if rec.Snap != "" && rec.Snap != ar.Before {
+							why = append(why, "repository_modified_during_the_run")
+							break
+						}
 					}
 					if strings.Contains(ar.Stderr, "DATA RACE") || ar.Exit == 66 {
 						why = append(why, "data_race_reported")
@@ -117,6 +127,28 @@ func checkC17(c *Ctx) {
 					if len(why) > 0 {
 						c.AddViolation(Violation{Predicate: strings.Join(why, ","), Spec: "CliRun!ReadOnly / determinism", Kind: "det",
 							Input:    map[string]interface{}{"case": ac, "mode": m.Name, "gomaxprocs": procs},
+							Observed: map[string]interface{}{"exit": ar.Exit, "stderr": tail(ar.Stderr, 12)}})
+					}
+				}
+			}
+		}
+		// runs that are stopped from outside (SIGKILL / SIGTERM to git-sizer while one of its git children begins):
+		// whatever the run had done up to then must have left the repository as it was
+		if !ac.Shallow {
+			for _, match := range []string{"for-each-ref", "cat-file --batch-check", "cat-file --batch ", "rev-list"} {
+				for _, mode := range []string{"killparent", "termparent"} {
+					plan, _ := json.Marshal(faultPlan{Match: match, Nth: 1, Mode: mode})
+					e.extraEnv = []string{"VERIF_FAULT=" + string(plan)}
+					ar := e.runAddr(l, addrModes[0], base, race, 2)
+					e.extraEnv = nil
+					total++
+					c.Distinct(fmt.Sprintf("%s/stopped/%s/%s", ac.ID, match, mode))
+					if ar.Exit == 0 {
+						c.Drift(fmt.Sprintf("a run stopped by %s at %q ended with status 0", mode, match))
+					}
+					if ar.Before != ar.After {
+						c.AddViolation(Violation{Predicate: "repository_modified_by_a_stopped_run", Spec: "CliRun!ReadOnly", Kind: "det",
+							Input:    map[string]interface{}{"case": ac, "mode": addrModes[0].Name, "gomaxprocs": 2, "stop": map[string]string{"match": match, "mode": mode}},
 							Observed: map[string]interface{}{"exit": ar.Exit, "stderr": tail(ar.Stderr, 12)}})
 					}
 				}
